@@ -123,7 +123,7 @@ func (g *Gen) AliasChains(n int) []Triple {
 			switch ca[k].Hole {
 			case "arr-elem":
 				tr = Triple{ca[k].FA, ca[k].FB, Arr(c, ca[k].FB.Lo, ca[k].FB.Hi)}
-			case "opt", "nu", "type", "sens", "iter":
+			case "opt", "nu", "type", "sens", "iter", "itr":
 				tr = Triple{ca[k].FA, ca[k].FB, Wrap1(ca[k].Hole, c)}
 			case "hash-val":
 				tr = Triple{ca[k].FA, ca[k].FB, Hash(ca[k].FB.Ts[0], c, ca[k].FB.Lo, ca[k].FB.Hi)}
